@@ -50,6 +50,18 @@ theorem chunk_end_balanced (optAll : Bool) (reads : List Read) (hwf : WF reads)
   obtain ⟨d, hd, hle⟩ := (readLoop_tracks optAll reads init [] [] hwf rfl).1 h
   unfold readMultiline; rw [hd]; exact hle
 
+/-- **chunk_end_balanced** (whole stream, any number of calls): if the reference bracket depth of the
+    stream never goes negative (`NonNeg`: no closing bracket without its opening one) and the calls
+    before reported no error, then at EVERY cut the reference lexer, run over the whole stream read so
+    far, is in code context at bracket depth exactly 0 — every chunk boundary is outside literals and
+    comments with all brackets closed.  (`pre` = what was read before, ending at such a boundary.) -/
+theorem chunk_end_balanced_stream (optAll : Bool) (fuel : Nat) (reads : List Read) (pre : List UInt8)
+    (hwf : WF reads) (hpre : rlex pre = ⟨.code, 0⟩) (hnn : NonNeg pre (reads.map (·.line)).flatten)
+    (cs₁ : List Chunk) (c : Chunk) (cs₂ : List Chunk) (hsplit : readAll optAll fuel reads = cs₁ ++ c :: cs₂)
+    (hall : ∀ c' ∈ cs₁, c'.err = .nil) (hc : c.err = .nil) :
+    rlex (pre ++ (cs₁.map (·.orig)).flatten ++ c.orig) = ⟨.code, 0⟩ :=
+  readAll_balanced optAll fuel reads pre hwf hpre hnn cs₁ c cs₂ hsplit hall hc
+
 /-- **literal_error_sound**: "unexpected character inside string/rune literal" is returned only
     for input in which a newline occurs inside an interpreted string or rune literal
     (so never for lexically valid source: tabs and other control characters are accepted). -/
@@ -170,5 +182,13 @@ example :
     (readAll false 9 reads).map (·.bytes) = [[47, 47, 120, 10], [97, 32, 43, 10, 98, 10], [99, 10], []] ∧
     readAllRest false 9 reads = [] ∧
     (∀ c ∈ readAll false 9 reads, (∀ b, c.err ≠ .lit b) ∧ c.err ≠ .panic) := by decide
+
+/-- `chunk_end_balanced_stream` is not vacuous: "f(\n" "1)\n" "g()\n" gives cuts after line 2 and line 3,
+    the first two chunks have err = nil, and the depth of the stream is never negative -/
+example :
+    let reads : List Read := [⟨[102, 40, 10], false⟩, ⟨[49, 41, 10], false⟩, ⟨[103, 40, 41, 10], false⟩]
+    (readAll false 9 reads).map (·.err) = [.nil, .nil, .eof] ∧
+    (readAll false 9 reads).map (·.orig) = [[102, 40, 10, 49, 41, 10], [103, 40, 41, 10], []] ∧
+    (∀ k, k ≤ 10 → 0 ≤ (rlex ((reads.map (·.line)).flatten.take k)).depth) := by decide
 
 end ReadMulti
